@@ -108,7 +108,47 @@ CLAIMED["C10"] = dict(engine="yast",
          "invalid_type as a legal id; deferred ids are resolved once per list, the flag being set after all cells and read only for non-empty lists. "
          "Equality of dispatch results across flavours is not decided.",
     design_ref="DESIGN.md section 4, C10")
+CLAIMED["C04"] = dict(engine="yast",
+    technique="AST affine rules on index / pointer / size expressions; CFG control-dependence whitelist on the slot-reservation steps",
+    text="Decides necessary structure, not collision freedom for every lattice: the v-table entry written at update (slot - first_slot), the biased "
+         "pointer installed by install_gv and by the decoder, and the lattice v-table size agree; dispatch_data is sized as the sum of all dispatch "
+         "table and v-table entries and each entry writes exactly one cell; in the lattice allocator the steps that mark a chosen slot, reserve it in "
+         "every base and propagate it through every covariant class and its bases are guarded by nothing beyond the visited check and the loops. That "
+         "the allocation is collision-free and the tables large enough for every lattice (a graph algorithm over run-time data) is NOT decided.",
+    design_ref="DESIGN.md section 4, C04")
+CLAIMED["C07"] = dict(engine="yast",
+    technique="AST who-may-read rule over statics on the update path; CFG control-dependence whitelists of installing stores; typestate rule; catalog case tables",
+    text="Decides the structural reasons the property can hold: update-path functions read only policy-keyed registration/output state (frozen list, "
+         "no function-local static, cache or 'compiled' flag); next pointers, the hash search, v-table pointer publication, static v-table pointers "
+         "and slots/strides are reinstalled unconditionally by every update; deferred ids are resolved exactly once; registration objects add and "
+         "remove themselves from the right catalog and the list operations are right in every list-shape case. Equivalence with a fresh process for "
+         "all histories (an induction over histories) is not mechanised.",
+    design_ref="DESIGN.md section 4, C07")
+CLAIMED["C09"] = dict(engine="yir+yast",
+    technique="IR symbolic summaries of the value stored in the v-table-pointer field on every construction route, compared with static_vptr<pointee> / the summary of Policy::dynamic_vptr; AST rules for the indirect table",
+    text="Decides v-table pointer provenance on every construction route of the witness matrix (exact type, base reference, shared_ptr lvalue / const "
+         "lvalue / rvalue, final, make_virtual_shared, converting/copy/move constructors, cast) for nine policies: static routes take "
+         "static_vptr<pointee class> of the same policy (its address when indirect), the dynamic route reads the cell Policy::dynamic_vptr reads, "
+         "conversions and cast carry the source's pointer, accessors return the stored object; the indirect table holds addresses of static v-table "
+         "pointers written only by install_gv / decode. Equality of run-time dispatch results is not observed.",
+    design_ref="DESIGN.md section 4, C09")
+CLAIMED["C15"] = dict(engine="yast+yir",
+    technique="AST rules on the update-time look-ups (null test, reported id, abort, control dependence); IR must-pass-through query (checked hash) on every object-to-vptr route; operand check of final's comparison",
+    text="Decides that every place a class id enters is checked under the stock checked policies: the three update-time look-ups run for every "
+         "record, are null-tested first and report the looked-up id then abort; dynamic_vptr, virtual_ptr's constructor on both branches and final "
+         "always pass the checked hash before a v-table pointer is used; final reports a method_table_error carrying the dynamic id exactly when "
+         "dynamic and static type differ. That the reported id is right for every registry (values) is not decided.",
+    design_ref="DESIGN.md section 4, C15")
+CLAIMED["C18"] = dict(engine="yast",
+    technique="AST decision tables per list-shape case (canonicalised link assignments); constructor/destructor pairing; CFG control dependence; idempotence table",
+    text="Decides the induction step, not the induction: in each list-shape case (empty / only / first / last / interior element) push_back and remove "
+         "perform exactly the link updates the documented invariant needs and reset the removed node's links; every catalog registration made in a "
+         "constructor has an unconditional removal from the same catalog in the destructor; add_function registers a definition once. Correctness for "
+         "all histories follows by induction over operations, which is not mechanised here.",
+    design_ref="DESIGN.md section 4, C18")
 NA = {
+ "C06": "2-safety property over permutations of run-time registration lists; the order-sensitive code (incremental elimination in best(), iteration-order driven slot and group numbering) has no shape-level rule that would not also fire on a correct rewrite - see DESIGN.md section 4, C06",
+ "C19": "string algorithm whose correctness depends on the characters of run-time inputs (prefix bookkeeping between sorted names, a regular expression); no pairing, layering or layout clause to check statically - see DESIGN.md section 4, C19",
 }
 DEFAULT_NA = "check not built yet (see DESIGN.md section 4 for the planned clause)"
 
@@ -119,11 +159,11 @@ m = {"version": 1,
                "source_commits": [], "add_only": True},
      "engines": [
         {"name": "yast", "path": "engine/yast.cpp", "kind_free_text": "clang front-end plugin serialising instantiated, type-resolved ASTs, CFGs, static-storage variables with policy keys; Python rules lib/yv/astq.py + checks",
-         "serves_properties": ["C08", "C14"]},
+         "serves_properties": ["C01", "C02", "C03", "C04", "C05", "C07", "C08", "C09", "C10", "C11", "C12", "C13", "C14", "C15", "C17", "C18"]},
         {"name": "e3", "path": "lib/yv/e3.py", "kind_free_text": "generated compile-pass / compile-fail / static_assert witnesses decided by clang's type checker, diagnostics attributed per obligation",
-         "serves_properties": ["C08", "C14", "C20"]},
+         "serves_properties": ["C08", "C11", "C14", "C20"]},
         {"name": "yir", "path": "engine/yir.cpp", "kind_free_text": "LLVM-IR (post mem2reg) serialiser + Python rules lib/yv/{irq,eff,sym}.py: effect sets, symbolic summaries, path queries",
-         "serves_properties": ["C01", "C02", "C16"]},
+         "serves_properties": ["C01", "C02", "C09", "C11", "C12", "C14", "C15", "C16"]},
      ],
      "checks": [], "not_applicable": [],
      "notes": "Static analysis only. Exit codes: 0 held, 1 VIOLATION, 2 analysis broken (anchor vanished / floor not met). known_findings.json lists genuine defects (fixed / recorded)."}
